@@ -1284,8 +1284,11 @@ func (m *Manager) handleMessage(tm *TaskmanMessage) error {
 
 		// This will check if the task update is from a reconciliation, as well as whether the task
 		// is in a state in which a mesos Kill call is possible.
-		// Reconcilation tasks are not part of the taskman.roster
+		// Reconciliation answers for tasks which are not part of the taskman.roster concern leftovers of a previous
+		// life of the core: those are killed. After a mere reconnection the roster still knows (and possibly locks
+		// in an environment) the reconciled tasks, for which this is a regular status update.
 		if mesosStatus.GetReason().String() == "REASON_RECONCILIATION" &&
+			m.GetTask(mesosStatus.GetTaskID().Value) == nil &&
 			(mesosState == mesos.TASK_STAGING ||
 				mesosState == mesos.TASK_STARTING ||
 				mesosState == mesos.TASK_RUNNING ||
